@@ -17,23 +17,28 @@
    FULL, one preservation theorem per pool-level operation, for every state satisfying SInv:
      removeTx, add (incl. underpriced eviction and both replacement paths), addTxsLocked,
      promoteExecutables, truncatePending, truncateQueue, the promote maintenance cycle,
-     Add(txs, sync), SetGasTip and the listing calls Content / ContentFrom / Pending; and by
-     induction C41_structural_inv_histories_partial: SInv after every history of Add / SetGasTip /
-     Content / ContentFrom / Pending operations, under the guards stated in the
-     theorem (senders in the universe, cost < 2^191, nonce < 2^64).
-   PARTIAL — what is missing from the full statement
+     Add(txs, sync), SetGasTip, the listing calls Content / ContentFrom / Pending,
+     demoteUnexecutables, reset (chain walk + reinjection) and the whole Reset cycle; and by
+     induction C41_structural_inv_histories_partial: SInv after EVERY history of Add / Reset /
+     SetGasTip / Content / ContentFrom / Pending operations from the empty pool, under the guards
+     stated in the theorem (senders in the universe, cost < 2^191, nonce < 2^64, for submitted
+     txs and for the txs contained in the blocks of the chain).
+   PARTIAL - what is missing from the full statement
        forall h, hist_ok h -> pool_inv_b (run_history (pool_init c tip g) h) = true :
-     (1) Reset cycles are not covered by the induction: demoteUnexecutables, setAll of the
-         pending nonces and the chain walk of reset have no preservation lemma yet (reinjection
-         itself is addTxsLocked, which is covered);
-     (2) the chain-dependent clauses are not carried through histories: per-tx affordability of
-         pending txs, pendingNonces consistency, pending_front_gapless and contiguity (the
-         list-level mechanisms below are proved; the full gapless statement is FALSE without
-         the no-nonce-regression guard, see C41_pending_gapless_refuted);
-     (3) fuel of the truncation/Discard loops never running out, priced-heap accounting, limits.
+     (0) pending_affordable (per tx: cost <= balance, gas <= block gas limit, nonce >= state nonce,
+         filed under the sender) IS carried through all histories: C41_pending_affordable_histories;
+     (0') pending_front_gapless holds after every Reset cycle for every pair of heads
+         (C41_Reset_cycle_front_gapless), and no pending list is empty after demoteUnexecutables;
+     (1) the remaining chain-dependent clauses are not carried through histories:
+         pendingNonces consistency, pending_front_gapless and contiguity, "the queue has
+         no executable head" (the list-level mechanisms below are proved; the full gapless statement
+         is FALSE without the no-nonce-regression guard: C41_pending_gapless_refuted; the bump rule
+         is FALSE for a full pool: C41_replacement_requires_bump_refuted);
+     (2) fuel of the truncation/Discard loops never running out, priced-heap accounting, the
+         per-account/global caps after maintenance.
    [pool_inv_b] is the executable full invariant, evaluated on every dump of the real pool by
    the harness oracle and on the model in C41_nonvacuous below. *)
-From GV Require Import Lib.Tactics Pool.Legacy Pool.LegacyProofs Pool.LegacyInv Pool.LegacyInv2 Pool.LegacyInv3 Pool.LegacyInv4.
+From GV Require Import Lib.Tactics Pool.Legacy Pool.LegacyProofs Pool.LegacyInv Pool.LegacyInv2 Pool.LegacyInv3 Pool.LegacyInv4 Pool.LegacyInv5 Pool.LegacyInv6 Pool.LegacyInv7 Pool.LegacyThm.
 Local Open Scope N_scope.
 
 (* replacement_requires_bump: whenever list.Add replaces a transaction, the new one has the
@@ -109,7 +114,7 @@ Proof. exact list_ready_contig. Qed.
 Print Assumptions C41_ready_contiguous.
 Theorem C41_promote_appends : forall l t s,
   contig s l -> t_nonce t = s + N.of_nat (length l) -> sm_put t l = l ++ [t] /\ contig s (l ++ [t]).
-Proof. intros l t s H Ht. split; [eapply sm_put_append; eassumption | apply contig_app_one; assumption]. Qed.
+Proof. exact C41_promote_appends_stmt. Qed.
 Print Assumptions C41_promote_appends.
 Theorem C41_gapless_checker_sound : forall l s, seq_from s l = true <-> contig s l.
 Proof. exact seq_from_contig. Qed.
@@ -138,94 +143,128 @@ Theorem C41_listing_is_index : forall a st, SInv st ->
   fst (flatten_pending a st) = match p_pending st a with Some l => l_txs l | None => [] end /\
   fst (flatten_queue a st) = match p_queue st a with Some l => l_txs l | None => [] end /\
   SInv (snd (pool_ContentFrom a st)) /\ SInv (snd (pool_Content st)) /\ SInv (snd (pool_Pending st)).
-Proof.
-  intros a st H. split; [apply (flatten_pending_RS a st H)|]. split; [apply (flatten_queue_RS a st H)|].
-  split; [apply (pool_ContentFrom_RS a st H)|]. split; [apply (pool_Content_RS st H) | apply (pool_Pending_RS st H)].
-Qed.
+Proof. exact C41_listing_is_index_stmt. Qed.
 Print Assumptions C41_listing_is_index.
 
 (* ---------- structural invariant: one preservation theorem per operation ---------- *)
 Theorem C41_removeTx_preserves : forall k t oob st, SInv st ->
   SInv (fst (remove_tx (S (S k)) t oob st)) /\
   (forall x, In x (p_all (fst (remove_tx (S (S k)) t oob st))) <-> In x (p_all st) /\ x <> t).
-Proof. intros k t oob st H. destruct (remove_tx_SInv k t oob st H) as [H1 [H2 _]]. split; assumption. Qed.
+Proof. exact C41_removeTx_preserves_stmt. Qed.
 Print Assumptions C41_removeTx_preserves.
 Theorem C41_add_preserves : forall t st, SInv st -> okt (p_cfg st) t -> SInv (fst (fst (pool_add t st))).
-Proof. intros t st H K. apply (pool_add_RS t st H K). Qed.
+Proof. exact C41_add_preserves_stmt. Qed.
 Print Assumptions C41_add_preserves.
 Theorem C41_addTxsLocked_preserves : forall txs errs st dirty, SInv st -> (forall t, In t txs -> okt (p_cfg st) t) ->
   SInv (fst (fst (add_txs_locked txs errs st dirty))).
-Proof. intros txs errs st dirty H K. apply (add_txs_locked_RS txs errs st dirty H K). Qed.
+Proof. exact C41_addTxsLocked_preserves_stmt. Qed.
 Print Assumptions C41_addTxsLocked_preserves.
 Theorem C41_promoteExecutables_preserves : forall accts st, SInv st -> SInv (promote_executables accts st).
-Proof. intros accts st H. apply (promote_executables_RS accts st H). Qed.
+Proof. exact C41_promoteExecutables_preserves_stmt. Qed.
 Print Assumptions C41_promoteExecutables_preserves.
 Theorem C41_truncatePending_preserves : forall st, SInv st -> SInv (truncate_pending st).
-Proof. intros st H. apply (truncate_pending_RS st H). Qed.
+Proof. exact C41_truncatePending_preserves_stmt. Qed.
 Print Assumptions C41_truncatePending_preserves.
 Theorem C41_truncateQueue_preserves : forall st, SInv st -> SInv (truncate_queue st).
-Proof. intros st H. apply (truncate_queue_SInv st H). Qed.
+Proof. exact C41_truncateQueue_preserves_stmt. Qed.
 Print Assumptions C41_truncateQueue_preserves.
 Theorem C41_Add_preserves : forall txs st, SInv st -> (forall t, In t txs -> okt (p_cfg st) t) -> SInv (fst (pool_Add txs st)).
-Proof. intros txs st H K. apply (pool_Add_RS txs st H K). Qed.
+Proof. exact C41_Add_preserves_stmt. Qed.
 Print Assumptions C41_Add_preserves.
 Theorem C41_SetGasTip_preserves : forall tip st, SInv st -> SInv (pool_SetGasTip tip st).
-Proof. intros tip st H. apply (pool_SetGasTip_RS tip st H). Qed.
+Proof. exact C41_SetGasTip_preserves_stmt. Qed.
 Print Assumptions C41_SetGasTip_preserves.
 
-(* by induction over histories; PARTIAL: op_ok excludes OpReset (see the header), and only the
-   structural clauses are carried *)
+(* the Reset cycle (runReorg with a reset request): reset(oldHead, newHead) with the chain walk and the
+   reinjection of the dropped txs, promoteExecutables, demoteUnexecutables against the new state,
+   SetBaseFee, setAll of the pending nonces, truncatePending, truncateQueue - for EVERY pair of heads
+   and every block store whose transactions satisfy the magnitude guards *)
+Theorem C41_demoteUnexecutables_preserves : forall st, SInv st ->
+  SInv (demote_unexecutables st) /\ (forall a l, p_pending (demote_unexecutables st) a = Some l -> l_txs l <> []).
+Proof. exact C41_demoteUnexecutables_preserves_stmt. Qed.
+Print Assumptions C41_demoteUnexecutables_preserves.
+Theorem C41_reset_preserves : forall blocks old new st, SInv st -> blocks_ok (p_cfg st) blocks old new ->
+  SInv (pool_reset blocks old new st).
+Proof. exact C41_reset_preserves_stmt. Qed.
+Print Assumptions C41_reset_preserves.
+Theorem C41_Reset_cycle_preserves : forall blocks old new st, SInv st -> blocks_ok (p_cfg st) blocks old new ->
+  SInv (run_reorg_reset blocks old new st).
+Proof. exact C41_Reset_cycle_preserves_stmt. Qed.
+Print Assumptions C41_Reset_cycle_preserves.
+
+(* by induction over ALL histories of Add / Reset / SetGasTip / Content / ContentFrom / Pending from the
+   empty pool.  The guards [op_okR]: every submitted tx and every tx contained in a block of the fake
+   chain has its sender in the account universe, cost < 2^191 and nonce < 2^64.
+   PARTIAL only in the sense that SInv is the structural part of the property (see the header). *)
 Theorem C41_structural_inv_histories_partial : forall c tip g h,
-  Forall (op_ok c) h -> SInv (run_history (pool_init c tip g) h).
-Proof. intros c tip g h H. apply (history_SInv h (pool_init c tip g) (SInv_init c tip g) H). Qed.
+  Forall (op_okR c) h -> SInv (run_history (pool_init c tip g) h).
+Proof. exact C41_structural_inv_histories_partial_stmt. Qed.
 Print Assumptions C41_structural_inv_histories_partial.
 
+(* pending_affordable over ALL histories (Add / Reset / SetGasTip / listings), same guards: every
+   pending transaction is filed under its sender, its cost is covered by the sender's balance at the
+   current head, its gas fits the current block gas limit, and its nonce is not below the sender's
+   state nonce (no stale pending tx: the lower half of pending_front_gapless).  (The cumulative form
+   "balance >= total cost of the pending list" is false by design: C41_pending_total_affordable_refuted.) *)
+Theorem C41_pending_affordable_histories : forall c tip g h, Forall (op_okR c) h ->
+  let st := run_history (pool_init c tip g) h in
+  forall b x, in_opt x (p_pending st b) ->
+    t_from x = b /\ cost x <= ch_bal (p_chain st) (t_from x) /\ t_gas x <= ch_gaslimit (p_chain st) /\
+    ch_nonce (p_chain st) (t_from x) <= t_nonce x.
+Proof. exact C41_pending_affordable_histories_stmt. Qed.
+Print Assumptions C41_pending_affordable_histories.
+(* the Reset cycle re-establishes it from ANY structurally consistent state, for every pair of heads *)
+Theorem C41_Reset_cycle_establishes_affordable : forall blocks old new st, SInv st -> blocks_ok (p_cfg st) blocks old new ->
+  PAff (run_reorg_reset blocks old new st).
+Proof. exact run_reorg_reset_PAff. Qed.
+Print Assumptions C41_Reset_cycle_establishes_affordable.
+
+(* pending_front_gapless after the Reset cycle, for EVERY pair of heads (reorgs that lower nonces
+   included) and every structurally consistent pool: no pending nonce is below the new state nonce
+   and every non-empty pending list contains it.  (Interior gaps are NOT excluded:
+   C41_pending_gapless_refuted.  Carrying this clause and contiguity through Add cycles needs the
+   pendingNonces bookkeeping and is not proved.) *)
+Theorem C41_Reset_cycle_front_gapless : forall blocks old new st, SInv st -> blocks_ok (p_cfg st) blocks old new ->
+  let st' := run_reorg_reset blocks old new st in
+  forall a, (forall x, in_opt x (p_pending st' a) -> ch_nonce (p_chain st') a <= t_nonce x) /\
+            ((exists x, in_opt x (p_pending st' a)) ->
+             exists x, in_opt x (p_pending st' a) /\ t_nonce x = ch_nonce (p_chain st') a).
+Proof. exact C41_Reset_cycle_front_gapless_stmt. Qed.
+Print Assumptions C41_Reset_cycle_front_gapless.
+
 (* ---------- witnesses ---------- *)
-Definition cfg_roomy : cfg := mkCfg 10 16 64 16 64 [0; 1; 2].
-Definition big : N := 1000000000000.
-Definition g0 : block := mkBlock 0 65535 0 1000000 0 [0; 0; 0] [big; big; big] [].
-Definition tA := mkTx 1 0 0 21000 10 5 0 1 21000.
-Definition tB := mkTx 2 0 1 21000 11 5 900000 1 21000.
-Definition tC := mkTx 3 0 2 21000 12 5 0 1 21000.
-Definition tQ := mkTx 4 1 5 21000 13 5 0 1 21000.
 (* branch 1 mines tA, tB; branch 2 (sibling) does not, and account 0 can no longer pay tB there *)
-Definition b1 : block := mkBlock 1 0 1 1000000 0 [2; 0; 0] [big; big; big] [tA; tB].
-Definition b2 : block := mkBlock 2 0 1 1000000 0 [0; 0; 0] [600000; big; big] [].
-Definition chain1 := [g0; b1; b2].
 
 (* pending_gapless is FALSE for histories with a reorg that lowers an account's nonce below its
    pending transactions when only part of the dropped transactions can be reinjected:
-   pending becomes [nonce 0, nonce 2], demoteUnexecutables only looks for a gap at the front *)
-Definition h_gap : list op :=
-  [OpAdd [tA]; OpAdd [tB]; OpAdd [tC]; OpReset chain1 g0 b1; OpReset chain1 b1 b2].
+   pending becomes [nonce 0, nonce 2], demoteUnexecutables only looks for a gap at the front.
+   OPEN KNOWN FINDING C41-interior-gap-after-reinjection.  Guard of the positive statement: no Reset
+   moves an account's state nonce below its lowest pending nonce.  What IS proved without any guard:
+   C41_Reset_cycle_front_gapless (the front of every pending list is the state nonce after every Reset
+   cycle), C41_pending_affordable_histories (no pending nonce below the state nonce, ever) and the
+   list-level contiguity theorems; the history-level contiguity theorem under the guard is NOT proved. *)
 Theorem C41_pending_gapless_refuted :
   exists h, let st := run_history (pool_init cfg_roomy 1 g0) h in
     gapless_b st = false /\
     option_map (fun l => map t_nonce (l_txs l)) (p_pending st 0) = Some [0; 2] /\
     ch_nonce (p_chain st) 0 = 0.
-Proof. exists h_gap. vm_compute. repeat split. Qed.
+Proof. exact C41_pending_gapless_refuted_stmt. Qed.
 Print Assumptions C41_pending_gapless_refuted.
 
 (* pending_affordable in the cumulative form "balance >= total cost of the pending list" is FALSE
    without any reorg: validation counts only the pending list, gapped txs wait in the queue *)
-Definition g1 : block := mkBlock 0 65535 0 1000000 0 [0; 0; 0] [500000; big; big] [].
-Definition tD := mkTx 5 0 0 21000 10 5 0 1 21000.
-Definition tE := mkTx 6 0 2 21000 11 5 0 1 21000.
-Definition tF := mkTx 7 0 1 21000 12 5 0 1 21000.
-Definition h_overdraft : list op := [OpAdd [tD]; OpAdd [tE]; OpAdd [tF]].
 Theorem C41_pending_total_affordable_refuted :
   exists h, let st := run_history (pool_init cfg_roomy 1 g1) h in
     total_affordable_b st = false /\ pool_inv_b st = true.
-Proof. exists h_overdraft. vm_compute. split; reflexivity. Qed.
+Proof. exact C41_pending_total_affordable_refuted_stmt. Qed.
 Print Assumptions C41_pending_total_affordable_refuted.
 
 (* replacement_requires_bump is FALSE at pool level when the pool is full: the pooled tx of the
    same sender and nonce is the cheapest one, is evicted by pricedList.Discard, and the new tx
-   (2% dearer, bump 10%) is queued afresh — pool.add never reaches list.Add's bump check *)
-Definition cfg_tiny : cfg := mkCfg 10 1 1 1 1 [0; 1; 2].
-Definition tP := mkTx 8 0 0 21000 100 100 0 1 21000.
-Definition tOld := mkTx 9 1 3 21000 50 50 0 1 21000.
-Definition tNew := mkTx 10 1 3 21000 51 51 0 1 21000.
+   (2% dearer, bump 10%) is queued afresh — pool.add never reaches list.Add's bump check.
+   OPEN KNOWN FINDING C41-bump-bypass-via-eviction.  Guard of the positive statement: the same-nonce
+   tx is replaced through list.Add (always the case when the pool is not full), where
+   C41_replacement_requires_bump holds for all lists and transactions. *)
 Theorem C41_replacement_requires_bump_refuted :
   exists st, st = run_history (pool_init cfg_tiny 1 g0) [OpAdd [tP]; OpAdd [tOld]] /\
     all_has tOld st = true /\
@@ -233,16 +272,15 @@ Theorem C41_replacement_requires_bump_refuted :
     t_feecap tNew < (100 + c_bump (p_cfg st)) * t_feecap tOld / 100 /\
     let '(st', errs) := pool_Add [tNew] st in
     errs = [E_OK] /\ all_has tNew st' = true /\ all_has tOld st' = false /\ pool_inv_b st' = true.
-Proof. eexists. split; [reflexivity|]. vm_compute. repeat split. Qed.
+Proof. exact C41_replacement_requires_bump_refuted_stmt. Qed.
 Print Assumptions C41_replacement_requires_bump_refuted.
 
 (* the invariant is met by a non-trivial state: two accounts pending, one queued behind a gap,
    after additions, a replacement and a head change *)
-Definition tR := mkTx 11 0 0 21000 20 9 0 1 21000.
 Example C41_nonvacuous :
   let st := run_history (pool_init cfg_roomy 1 g0)
               [OpAdd [tA; tB; tC]; OpAdd [tQ]; OpAdd [tR]; OpAdd [mkTx 12 2 0 30000 9 9 5 1 21000];
                OpReset chain1 g0 b1; OpSetGasTip 2] in
   pool_inv_b st = true /\ limits_b st = true /\ lwf (new_list true) /\
   length (p_all st) = 3%nat /\ queue_count st = 1%nat.
-Proof. split; [vm_compute; reflexivity|]. split; [vm_compute; reflexivity|]. split; [apply lwf_new|]. vm_compute. split; reflexivity. Qed.
+Proof. exact C41_nonvacuous_stmt. Qed.
